@@ -15,7 +15,11 @@ Oracle (real objects only, independent formula from the Chemical objects):
   * `Reaction.dH` = X · Σ ν (Hf + latent(phase_ref → phase)) (÷ MW on wt basis),
   * isothermal: ΔHnet = Σ dH_k·feed_k + ΔH − (latent part); exactly Σ dH_k·feed_k at 298.15 K when every reacting
     chemical is in its reference phase,
-  * adiabatic: Hnet_after = Hnet_before + Q within the solver tolerance.
+  * adiabatic: Hnet_after = Hnet_before + Q within the solver tolerance,
+  * `dH_wt · MW_reactant = dH_mol` across `rxn.basis = 'wt'`; `dH` raises iff a reacting chemical is tagged with a
+    phase outside s/l/g other than its reference phase; the dH of a set item is a scalar.
+The per-reaction feeds of a series / system are observed by applying the real constituent reactions one after the
+other to a copy of the real stream.
 """
 from __future__ import annotations
 import math, warnings
@@ -35,6 +39,10 @@ ASSUMPTIONS = [
     'H-setter post-condition |H(T_out) − H_target| ≤ ε with ε = 1e-5·C + 1e-9·scale (monitored on every adiabatic op)',
     'stoichiometry, reactant index and X are read back from the real reaction objects (parsing / rescaling is C05)',
     'adiabatic ops whose outlet temperature leaves [150, 3000] K are outside the quantifier and not judged',
+    'states the property models reject (no gas model for glucose, negative solid Cp of H2, …) are skipped and counted (skip:*)',
+    'streams held in another property package are single-phase only: MaterialIndexer.reset_chemicals does not restore a '
+    'MultiStream of another package (a material defect reported to C05)',
+    'Hvap(298.15 K), Hfus, Hf, MW, phase_ref are numbers for every chemical used (none is None)',
     'float results are compared with the exact-rational model at rtol 1e-9 of the magnitude of the summed terms',
 ]
 TRUSTED = ['Lean 4.33 kernel', 'harness/props/c06.py + Driver/C06.lean', 'generator reach (see histogram)',
@@ -105,8 +113,8 @@ def setup():
 
 
 def budget(tier):
-    return {'quick': dict(seconds=70, cases=1600, shrink_s=20, search_s=5),
-            'thorough': dict(seconds=520, cases=40000, shrink_s=40, search_s=10)}[tier]
+    return {'quick': dict(seconds=70, cases=4000, shrink_s=20, search_s=5),
+            'thorough': dict(seconds=520, cases=50000, shrink_s=40, search_s=10)}[tier]
 
 
 # --------------------------------------------------------------------------
@@ -123,13 +131,16 @@ def indep_latent(ID, phase):
 
 
 def indep_dH(rec, latent=True, formation=True):
-    """X · Σ ν (Hf + latent) (/MW on wt basis) from per-chemical data; Fractions so no rounding of our own"""
+    """X · Σ ν (Hf + latent) (/MW on wt basis) from per-chemical data; Fractions so no rounding of our own.
+    Returns (value, magnitude), or None when a touched chemical sits in a phase the latent table does not know."""
     tot = Fraction(0); scale = Fraction(0)
     for (p, i, nu) in rec['nz']:
         ID = IDS[i]; c = CHEM[ID]
         h = Fraction(0)
         if formation: h += Fraction(c['Hf'])
-        if latent and rec['phases']: h += Fraction(indep_latent(ID, rec['phases'][p]))
+        if latent and rec['phases']:
+            try: h += Fraction(indep_latent(ID, rec['phases'][p]))
+            except KeyError: return None
         t = Fraction(nu) * h
         if rec['basis'] == 'wt': t /= Fraction(c['MW'])
         tot += t; scale += abs(t)
@@ -183,7 +194,9 @@ def amount(s, rec):
 
 def real_heat(entry, s):
     """Σ_k (real dH_k)·(reactant amount reaction k sees), and the same with the independent formation-only and
-    latent-only coefficients, stepping the real constituent reactions on a copy of the stream"""
+    latent-only coefficients, stepping the real constituent reactions (normal call path) on a copy of the stream.
+    (`force_reaction` is not used for the stepping: `functional.remove_negligible_negative_values` zeroes the wrong
+    entries — a material defect outside this property, reported to C05.)"""
     c = s.copy()
     heat = form = lat = 0.0
     for b in entry['blocks']:
@@ -195,8 +208,8 @@ def real_heat(entry, s):
             heat += x['dH'] * f
             form += indep_dH(x['rec'], latent=False)[0] * f
             lat += indep_dH(x['rec'], formation=False)[0] * f
-            if kind != 'par': x['obj'].force_reaction(c)
-        if kind == 'par': b['obj'].force_reaction(c)
+            if kind != 'par': x['obj'](c)
+        if kind == 'par': b['obj'](c)
     return heat, form, lat
 
 
@@ -214,7 +227,12 @@ def run_impl(case: Case) -> ImplResult:
         frs(CHEM[i]['Hfus'] for i in IDS), ''.join(CHEM[i]['ref'] for i in IDS)), 'ok')
 
     def check_dH(v, rec, what):
-        ref, sc = indep_dH(rec)
+        ind = indep_dH(rec)
+        if ind is None:
+            fail('dH-invalid-phase-accepted', f'{what}.dH = {v!r} although a reacting chemical is tagged with a phase outside '
+                 f's/l/g that is not its reference phase (phases={rec["phases"]}); the latent heat is undefined there')
+            return
+        ref, sc = ind
         if not abs(v - ref) <= 1e-9 * sc + 1e-300:
             fail('dH-formula:%s:%s' % (rec['basis'], 'tagged' if rec['phases'] else 'untagged'),
                  f'{what}.dH = {v!r} but X·Σν(Hf+latent){"/MW" if rec["basis"] == "wt" else ""} = {ref!r} '
@@ -229,7 +247,10 @@ def run_impl(case: Case) -> ImplResult:
             kw = {}
             if len(t) > 5 and t[5].startswith('ph=') and t[5] != 'ph=-': kw['phases'] = t[5][3:]
             r = tmo.Reaction(eq, reactant=reactant, X=X, chemicals=ta.chemicals, **kw)
-            if basis == 'wt': r.basis = 'wt'
+            if basis == 'wt':
+                try: d_mol = float(np.ravel(r.dH)[0])
+                except RuntimeError: d_mol = None
+                r.basis = 'wt'
             rec = read_back(r)
             x = dict(kind='single', obj=r, rec=rec, dH=None)
             x['singles'] = [x]
@@ -238,6 +259,15 @@ def run_impl(case: Case) -> ImplResult:
             emit('rxn %s %s %s X=%s r=%d nu=%s' % (rid, rec['basis'], ''.join(rec['phases']) or '-', fr(rec['X']), rec['r'],
                                                   frs(rec['nu'])), 'ok')
             tags.add('rxn:' + basis + (':tagged' if rec['phases'] else ':untagged'))
+            if basis == 'wt' and d_mol is not None:
+                # the heat released per reactant fed must not depend on the basis: dH_wt · MW_reactant = dH_mol
+                try: d_wt = float(np.ravel(r.dH)[0])
+                except RuntimeError: d_wt = None
+                rID = rec['reactant'][1] if rec['phases'] else rec['reactant']
+                ind = indep_dH(rec)
+                if d_wt is not None and ind is not None and not abs(d_wt * CHEM[rID]['MW'] - d_mol) <= 1e-9 * ind[1] * CHEM[rID]['MW'] + 1e-300:
+                    fail('dH-basis-agree', f'dH on the molar basis is {d_mol!r} J/mol but after `basis = "wt"` it is {d_wt!r} J/g '
+                                           f'= {d_wt * CHEM[rID]["MW"]!r} J/mol of {rID}')
         elif op in ('P', 'Q'):
             rid, ids = t[1], t[2].split(',')
             members = [rx[i] for i in ids]
@@ -264,7 +294,11 @@ def run_impl(case: Case) -> ImplResult:
                 try:
                     v = x['obj'].dH
                 except RuntimeError:
-                    emit('dh ' + t[1], 'err=runtime'); x['dH'] = None; tags.add('dh:err'); continue
+                    emit('dh ' + t[1], 'err=runtime'); x['dH'] = None; tags.add('dh:err')
+                    if indep_dH(x['rec']) is not None:
+                        fail('dH-raised', f'Reaction.dH raised RuntimeError for a reaction whose chemicals are all in s/l/g '
+                                          f'phases (phases={x["rec"]["phases"]}, reactant={x["rec"]["reactant"]})')
+                    continue
                 if np.ndim(v) != 0:
                     fail('dH-not-scalar', f'Reaction.dH returned {v!r}'); v = np.ravel(v)[0]
                 v = float(v); x['dH'] = v
@@ -277,7 +311,10 @@ def run_impl(case: Case) -> ImplResult:
                     try:
                         v = item.dH
                     except RuntimeError:
-                        emit('dhitem %s %d' % (t[1], k), 'err=runtime'); continue
+                        emit('dhitem %s %d' % (t[1], k), 'err=runtime')
+                        if indep_dH(m['rec']) is not None:
+                            fail('dH-raised', f'{type(x["obj"]).__name__}[{k}].dH raised RuntimeError although every chemical is in an s/l/g phase')
+                        continue
                     if np.ndim(v) != 0:
                         # the item's own entry is what is compared; the shape itself is an oracle failure
                         fail('dH-item-not-scalar',
@@ -312,6 +349,7 @@ def run_impl(case: Case) -> ImplResult:
                     try: m['dH'] = float(np.ravel(m['obj'].dH)[0]) if m['dH'] is None else m['dH']
                     except RuntimeError: ok = False
                 if not ok: tags.add('skip:dH-raises'); continue
+            if any(indep_dH(m['rec']) is None for m in singles): tags.add('skip:invalid-phase-tag'); continue
             if bool(phases) != isinstance(s, tmo.MultiStream) or (phases and tuple(s.phases) != tuple(phases)):
                 tags.add('skip:phase-mismatch'); continue
             try:
@@ -323,8 +361,8 @@ def run_impl(case: Case) -> ImplResult:
             T0 = float(s.T)
             try:
                 heat, form, lat = real_heat(x, s)
-            except (tmo.exceptions.InfeasibleRegion,):
-                heat = form = lat = float('nan')
+            except tmo.exceptions.InfeasibleRegion:
+                heat = form = lat = None
             if any(m['rec']['X'] != 0 and amount(s, m['rec']) > 0 for m in singles): nontrivial = True
             scale0 = sum(abs(CHEM[IDS[k % len(IDS)]]['Hf'] * v) for k, v in enumerate(n0))
             kindtag = '%s:%s:%s' % (x['kind'], basis, 'tagged' if phases else 'untagged')
@@ -341,8 +379,13 @@ def run_impl(case: Case) -> ImplResult:
                 n1 = flat_n(s, phases)
                 dHnet = Hnet1 - Hnet0
                 emit('iso %s n=%s H0=%s H1=%s' % (t[1], frs(n0), fr(H0), fr(H1)),
-                     'n=%s Hf0=%s Hf1=%s heat=%s dHnet=%s chk=ok' % (frs(n1), fr(Hf0), fr(Hf1), fr(heat), fr(dHnet)))
+                     'n=%s Hf0=%s Hf1=%s %sdHnet=%s chk=ok' % (frs(n1), fr(Hf0), fr(Hf1),
+                                                              'heat=%s ' % fr(heat) if heat is not None else '', fr(dHnet)))
                 tags.add('iso:' + kindtag)
+                if heat is None:
+                    # a constituent reaction alone would be infeasible on the intermediate material although the whole
+                    # system is not: the per-reaction feeds cannot be observed on the real code; flows/Hf/Hnet still compared
+                    tags.add('iso:stepping-infeasible'); continue
                 scale = scale0 + sum(abs(CHEM[IDS[k % len(IDS)]]['Hf'] * v) for k, v in enumerate(n1)) + abs(H0) + abs(H1)
                 tolv = 1e-9 * scale + 1e-12
                 # general identity: ΔHnet = Σ dH_k feed_k + (ΔH − latent part)
@@ -392,6 +435,11 @@ def run_impl(case: Case) -> ImplResult:
                          frs(n1), fr(target) if target is not None else 'none', fr(Hnet0), fr(Hnet1), fr(resid)))
                 tags.add('adia:' + kindtag)
                 tags.add('adia:phase-flipped' if (not phases and s.phase != t[4]) else 'adia:same-phase')
+                if target is not None and not abs(Hgot - target) <= eps:
+                    # hypothesis monitor of `adiabatic_balance` (the model line answers hyp=unmet as well)
+                    fail('hypothesis:H-setter-residual',
+                         f'the H setter was handed {target!r} but stream.H reads {Hgot!r} afterwards (T_out={T1}, ε={eps:.3g}): '
+                         f'the post-condition assumed by adiabatic_balance is not met')
                 if not abs(resid) <= eps:
                     fail('adiabatic-balance:' + kindtag,
                          f'adiabatic reaction from T={T0} with Q={Q!r}: Hnet_after − (Hnet_before + Q) = {resid!r} '
@@ -451,7 +499,6 @@ def compare(impl_line, model_line):
 
 def disagree_signature(case, res, first):
     op = res.model_in[first].split(' ')[0] if first < len(res.model_in) else 'length'
-    if op == 'adia' and 'hyp=unmet' in ' '.join(res.outs[first:first + 1]): return 'hypothesis:H-setter-residual'
     return 'disagree:' + op
 
 
